@@ -405,6 +405,25 @@ class SReal(_SNum):
     def floor(self) -> SInt:
         return SInt(z3.simplify(z3.ToInt(self.e)))
 
+    def ceil(self) -> SInt:
+        return SInt(z3.simplify(-z3.ToInt(-self.e)))
+
+    # math.floor / math.ceil / round() look these up on the type: a change that rounds differently must meet
+    # the exact semantics, not a harness error
+    def __floor__(self):
+        return self.floor()
+
+    def __ceil__(self):
+        return self.ceil()
+
+    def __round__(self, ndigits=None):
+        if ndigits is not None:
+            raise HarnessError('round(symbolic real, ndigits) is not modelled')
+        f = z3.ToInt(self.e)
+        d = self.e - z3.ToReal(f)
+        half = z3.RealVal(1) / 2
+        return SInt(z3.simplify(z3.If(d < half, f, z3.If(d > half, f + 1, z3.If(f % 2 == 0, f, f + 1)))))
+
     __trunc__ = None  # make math.trunc / int() fail loudly
 
 
